@@ -25,7 +25,7 @@ extern void *mpt_queue_find(const MPT_STRUCT(queue) *queue, size_t esz, int (*cm
 	size_t pos, iter;
 	char *addr;
 	
-	if (!queue || !cmp) {
+	if (!queue || !cmp || !esz) {
 		errno = EFAULT;
 		return 0;
 	}
